@@ -226,6 +226,10 @@ func (r *blobReader) Read(buf []byte) (int, error) {
 		return n, err
 	}
 	if !r.verify {
+		if r.n > r.desc.Size {
+			// The final read can return data along with io.EOF.
+			return n, fmt.Errorf("blob size exceeds content length %d: %w", r.desc.Size, ociregistry.ErrSizeInvalid)
+		}
 		return n, io.EOF
 	}
 	if r.n != r.desc.Size {
